@@ -28,7 +28,7 @@ RULE = (
 )
 ASSUMPTIONS = ["one decode_content value per program (switching True -> False is documented to raise)", "gzip members are written with a zero mtime so the run is deterministic"]
 REQUIRED_PROBES = {
-    "quick": ["coding:gzip_multi", "coding:zstd_multi", "coding:stack", "framing:chunked", "framing:close", "seg:byte", "seg:cuts", "finisher:stream", "finisher:read_chunked", "finisher:iter", "preload", "decode_off", "big_body", "short_read_at_end", "enumerated_program"],
+    "quick": ["coding:gzip_multi", "coding:zstd_multi", "coding:stack", "framing:chunked", "framing:close", "seg:byte", "seg:cuts", "finisher:stream", "finisher:read_chunked", "finisher:iter", "preload", "decode_off", "big_body", "short_read_at_end", "enumerated_program", "companion_interleaved"],
     "thorough": ["coding:gzip_multi", "coding:zstd_multi", "coding:stack", "framing:chunked", "framing:close", "seg:byte", "seg:cuts", "finisher:stream", "finisher:read_chunked", "finisher:iter", "preload", "decode_off", "big_body", "short_read_at_end"],
 }
 
@@ -114,7 +114,23 @@ def gen(rng):
     amt = rng.choice(AMTS)
     if resp["payload"]["size"] > 20000:
         amt = max(amt, 1000)  # a read1(1) loop costs one socket read per byte: keep below the harness step cap
-    return {"property": ID, "response": resp, "seg": seg, "decode": decode, "program": prog, "finisher": fin, "amt": amt}
+    sc = {"property": ID, "response": resp, "seg": seg, "decode": decode, "program": prog, "finisher": fin, "amt": amt}
+    if prog and fin != "data" and decode and rng.random() < 0.2:
+        # a second response, on its own connection of the same pool, is read a piece at a time *between* the reads of the first:
+        # nothing the two have in common (decoder classes, module state) may carry bytes or state from one to the other
+        comp = gen_response(rng)
+        if rng.random() < 0.7:
+            comp["coding"] = resp["coding"]
+            comp.pop("split_at", None)
+            if isinstance(comp["coding"], str) and comp["coding"].endswith("_multi"):
+                comp["split_at"] = comp["payload"]["size"] // 2
+        comp["payload"]["size"] = min(comp["payload"]["size"], 3000)  # keeps the number of socket reads far below the harness step cap
+        if "split_at" in comp:
+            comp["split_at"] = min(comp["split_at"], comp["payload"]["size"])
+        if comp["framing"] == "chunked":
+            comp["chunks"] = [rng.choice([3, 16, 100, 1000])]
+        sc["companion"] = {"response": comp, "amt": rng.choice([1, 3, 7, 64, 1000])}
+    return sc
 
 
 # ---- exhaustive stratum: every call sequence of length <= 2 (quick) / <= 3 (thorough) over the statement's alphabet
@@ -176,7 +192,25 @@ def execute(sc, res: Result, w, built, second_request=False):
             emit(r.data, "data")
             return pieces, None, r, pool
         r = pool.urlopen("GET", "/x", preload_content=False, decode_content=d)
+        comp = sc.get("companion")
+        r2 = None
+        cbuf = bytearray()
+        cerr = [None]
+        if comp:
+            r2 = pool.urlopen("GET", "/y", preload_content=False, decode_content=True)
+
+        def companion_step(final=False):
+            if r2 is None or cerr[0] is not None:
+                return
+            try:
+                cbuf.extend(r2.read(decode_content=True) if final else r2.read(comp["amt"], decode_content=True))
+            except Exception as e2:
+                H.strip_tb(e2)
+                cerr[0] = e2
+            res.info["companion"] = (bytes(cbuf), cerr[0])
+
         for op, n in sc["program"]:
+            companion_step()
             if op == "read":
                 emit(r.read(n, decode_content=d), f"read({n})", n)
             elif op == "read1":
@@ -249,6 +283,12 @@ def execute(sc, res: Result, w, built, second_request=False):
     except Exception as e:
         H.strip_tb(e)
         err = e
+    try:
+        companion_step(final=True)
+    except NameError:
+        pass
+    except (W.SimHang, W.StepLimit):
+        res.info["companion"] = None  # harness limit reached while finishing the companion: no verdict on it
     return pieces, err, r, pool
 
 
@@ -259,9 +299,21 @@ def run(sc: dict) -> Result:
     w = W.World({"seg": sc["seg"]})
     w.default_listener = H.origin_factory()
     end = "eof" if resp["framing"] == "close" else "keep"
-    w.responder = lambda world, peer, req: {"k": "raw", "bytes": built["wire"], "end": end}
+    built2 = B.build(sc["companion"]["response"]) if sc.get("companion") else None
+    end2 = ("eof" if sc["companion"]["response"]["framing"] == "close" else "keep") if built2 else None
+    w.responder = lambda world, peer, req: ({"k": "raw", "bytes": built2["wire"], "end": end2} if (built2 and req.target == "/y") else {"k": "raw", "bytes": built["wire"], "end": end})
     with H.RunEnv(), H.quiet_warnings(), w:
         pieces, err, r, pool = execute(sc, res, w, built)
+        if built2 is not None:
+            cgot, cerr = res.info.pop("companion", None) or (None, None)
+            if cgot is None:
+                res.probes["companion_no_verdict"] += 1
+            elif cerr is not None:
+                res.bad(f"companion_read_raised:{type(cerr).__name__}", f"the response read in between raised {cerr!r:.160} after {len(cgot)} of {len(built2['decoded'])} bytes")
+            elif cgot != built2["decoded"]:
+                res.bad("companion_bytes_wrong", f"the response read in between delivered {len(cgot)} bytes, its payload has {len(built2['decoded'])}")
+            else:
+                res.probes["companion_interleaved"] += 1
         want = built["decoded"] if sc["decode"] else built["raw"]
         got = b"".join(pieces)
         if err is not None:
